@@ -54,6 +54,7 @@ type target struct {
 	aux    bool   // serves one family only (recursive.go): no generic universe, no input stream
 	run    func(in []byte) outcome
 	corpus []item
+	extra  [][]byte // further inputs (family "hand-built"): nothing says the decoder accepts them
 }
 
 // ---------------------------------------------------------------- helpers
@@ -236,6 +237,9 @@ func runParsePackage(in []byte) outcome {
 	}
 	return used(func() string { return usePackage(pkg) })
 }
+
+// useStepMaxInput: above this input length the IDL targets run the parsers only.
+const useStepMaxInput = 16 << 10
 
 func runParseIDL(in []byte) outcome {
 	phaseHook("ParseIDL")
@@ -537,7 +541,27 @@ func buildTargets() []*target {
 		canonCapMap(c, e)
 		capEnc = append(capEnc, e.b())
 	}
-	add(&target{entry: "ReadCapabilityMap", binary: true, corpus: items("cap", capEnc...),
+	// maps a Go map cannot express: a key stated twice (same value, other value) for
+	// every kind of value a capability can carry (seed C07-17 compared the two decoded
+	// values with !=, which panics for list and raw values)
+	capVals := [][2]value.Value{
+		{value.Bool(true), value.Bool(false)},
+		{value.Uint(3), value.Uint(4)},
+		{value.String("a"), value.String("b")},
+		{value.List([]value.Value{value.Int(1)}), value.List([]value.Value{value.Int(2)})},
+		{value.Raw([]byte{1, 2}), value.Raw([]byte{3})},
+		{value.Opaque("(ii)", []byte{1, 0, 0, 0, 2, 0, 0, 0}), value.Opaque("(ii)", []byte{3, 0, 0, 0, 4, 0, 0, 0})},
+		{value.Void(), value.Void()},
+		{value.List([]value.Value{value.Int(1)}), value.Raw([]byte{9})},
+	}
+	var capExtra [][]byte
+	for _, pv := range capVals {
+		capExtra = append(capExtra,
+			n().u32(2).str("k").val(pv[0]).str("k").val(pv[0]).b(),
+			n().u32(2).str("k").val(pv[0]).str("k").val(pv[1]).b(),
+			n().u32(3).str("k").val(pv[0]).str("other").val(pv[1]).str("k").val(pv[1]).b())
+	}
+	add(&target{entry: "ReadCapabilityMap", binary: true, corpus: items("cap", capEnc...), extra: capExtra,
 		run: func(in []byte) outcome {
 			m, err := bus.ReadCapabilityMap(bytes.NewReader(in))
 			if err != nil {
@@ -641,7 +665,7 @@ func buildTargets() []*target {
 	// dispatches action 8 to RegisterEventWithSignature before the wrapped
 	// actor is consulted: stubServiceZero.Authenticate is not reachable from
 	// outside the package; the server uses ServiceAuthenticate instead.
-	add(&target{entry: "stub:ServiceAuthenticate", sub: "8", binary: true, corpus: items("auth", capEnc...),
+	add(&target{entry: "stub:ServiceAuthenticate", sub: "8", binary: true, corpus: items("auth", capEnc...), extra: capExtra,
 		run: func(in []byte) outcome {
 			return receive(bus.ServiceAuthenticate(bus.Yes{}), 8, in)
 		}})
@@ -657,6 +681,18 @@ func buildTargets() []*target {
 		}})
 	add(&target{entry: "idl.ParsePackage", corpus: items("idl", []byte(sampleIDL)),
 		run: func(in []byte) outcome {
+			if len(in) > useStepMaxInput {
+				// scale families: the statement bounds the PARSERS by the input
+				// length; the use step (printing, registering and generating from
+				// the result: code generators, not parsers) is for small inputs
+				phaseHook("ParsePackage")
+				if _, err := idl.ParsePackage(in); err != nil {
+					return res(err)
+				}
+				phaseHook("ParseIDL")
+				_, err := idl.ParseIDL(bytes.NewReader(in))
+				return res(err)
+			}
 			o := runParsePackage(in)
 			if !o.accepted || o.unusable != "" {
 				return o
